@@ -88,7 +88,7 @@ struct F {
               c10::check_direction<T>(std::string(name) + ".Direction()", dc, v, 3);
               vf::comps(PhQ::Direction<T>(q.Value()), raw);
               for (int i = 0; i < 3; i++)
-                if (!vf::same_bits(dc[i], raw[i])) {
+                if (std::fabs((double)(dc[i] - raw[i])) > 2 * (double)std::numeric_limits<T>::epsilon()) {
                   vf::viol("direction-of-quantity-differs-from-direction-of-value|" + tag, "{\"vector\":" + vf::comps_hex(q) + "}");
                   break;
                 }
